@@ -12,6 +12,27 @@ from .threads import ThreadCfg, lock_kind
 USER_CODE = {"dispatch", "events_callback", "process_termination_callback", "on_any_event"}
 
 
+def predicate_fields(P, cname: str, evs, w) -> set[str]:
+    """The wait predicate as the waiter evaluates it: the attributes of `self` read by the tests made between the last lock
+    boundary (acquire / an earlier wait) and the wait itself, on the iteration that waits.  A test made *before* the lock was
+    taken is not part of it: what a notifier writes can change between that test and the wait, and its notify is then lost.
+    (`while pred: cond.wait()` under the lock and `while True: with cond: if ..: return; cond.wait()` give the same set.)"""
+    i = next((j for j, e in enumerate(evs) if e is w), None)
+    if i is None:
+        return set()
+    start = max([j for j, e in enumerate(evs[:i]) if e.kind in ("acquire", "wait")], default=-1)
+    fields: set[str] = set()
+    for e in evs[start + 1 : i]:
+        if e.kind != "cond":
+            continue
+        fields |= set(re.findall(r"self\.(_\w+)", e.text))
+        for hm in re.findall(r"self\.(\w+)\(\)", e.text):
+            hf = P.find_method(cname, hm)
+            if hf is not None:
+                fields |= set(re.findall(r"self\.(_\w+)", ast.unparse(hf.node)))
+    return fields
+
+
 def monitor_discipline(ctx, RM, skip_modules=(), only_classes=None) -> int:
     P = ctx.P
     thorough = ctx.tier == "thorough"
@@ -40,7 +61,7 @@ def monitor_discipline(ctx, RM, skip_modules=(), only_classes=None) -> int:
                 for p in ps:
                     for e in p.evs:
                         if e.kind == "wait" and not e.extra.get("timed"):
-                            waits.append((mname, e, list(stack)))
+                            waits.append((mname, e, list(stack), p))
                         if e.kind == "loop":
                             find(e.extra["paths"], stack + [e], mname)
 
@@ -48,21 +69,20 @@ def monitor_discipline(ctx, RM, skip_modules=(), only_classes=None) -> int:
                 find(ps, [], mname)
             seenw = set()
             pred_fields: set[str] = set()
-            for mname, w, stack in waits:
+            per_wait: dict[int, set] = {}
+            for mname, w, stack, p in waits:
+                # decided per waiting iteration: the wait must sit in a loop (it is re-tested after every wake-up), and the tests made
+                # under the lock before it are its predicate; several paths through the same wait: what all of them test
+                f_ = predicate_fields(P, cname, p.evs, w) if stack else set()
+                per_wait[id(w.node)] = f_ if id(w.node) not in per_wait else (per_wait[id(w.node)] & f_)
+            for mname, w, stack, p in waits:
                 if id(w.node) in seenw:
                     continue
                 seenw.add(id(w.node))
                 nwait += 1
-                inner = [L for L in stack if L.extra.get("kind") == "while" and L.text != "True"]
-                fields = set(re.findall(r"self\.(_\w+)", inner[-1].raw)) if inner else set()
-                if inner:
-                    # predicate helpers such as should_keep_running(): add what they read
-                    for hm in re.findall(r"self\.(\w+)\(\)", inner[-1].raw):
-                        hf = P.find_method(cname, hm)
-                        if hf is not None:
-                            fields |= set(re.findall(r"self\.(_\w+)", ast.unparse(hf.node)))
+                fields = per_wait[id(w.node)]
                 pred_fields |= fields
-                ctx.check(bool(fields), RM, f"{cname}.{mname}: wait in predicate loop", "untimed wait() is not the body of a loop whose condition reads shared state: a notify (stop, new item) that happens before the wait is lost and the thread sleeps forever", f"{m.relpath}:{w.line}", {"loop": inner[-1].raw if inner else None})
+                ctx.check(bool(fields), RM, f"{cname}.{mname}: wait in predicate loop", "untimed wait() is not inside a loop that tests shared state, under the lock, before every wait: a notify (stop, new item) that happens before the wait is lost and the thread sleeps forever", f"{m.relpath}:{w.line}", {"loops": [L.raw for L in stack], "predicate_fields": sorted(fields)})
             if not pred_fields:
                 continue
             for mname, ps in cpaths.items():
@@ -79,7 +99,7 @@ def monitor_discipline(ctx, RM, skip_modules=(), only_classes=None) -> int:
                             if mm:
                                 writes.add(mm.group(1))
                 if notif:
-                    ctx.check(bool(writes & pred_fields), RM, f"{cname}.{mname}: notifier writes the predicate", f"notifies after writing {sorted(writes)} but the wait predicate reads {sorted(pred_fields)}: the woken thread re-checks an unchanged predicate and waits again", ci.methods[mname].loc)
+                    ctx.check(bool(writes & pred_fields), RM, f"{cname}.{mname}: notifier writes the predicate", f"notifies after writing {sorted(writes)} but the tests the waiter makes under the lock before waiting read only {sorted(pred_fields)}: the waiter either re-checks an unchanged predicate and waits again, or has tested the written state before taking the lock — a notify that falls between that test and the wait is lost and the thread sleeps forever", ci.methods[mname].loc)
     ctx.count("untimed_waits", nwait)
     return nwait
 
